@@ -15,3 +15,37 @@ Print Assumptions C16_fold_bwd.
 Theorem C16_fold_restrict_ext : forall (atom : Type) (aux : atom -> Prop) (F : Type) (fsat : interp atom -> interp atom -> F -> Prop) (Hd : Type) (Q : trule atom F Hd -> Prop) (T : interp atom), noaux atom aux T -> forall a : atom, restrict atom aux (ext atom aux F fsat Hd Q T T) a <-> T a.
 Proof. exact (@Fold.fold_restrict_ext). Qed.
 Print Assumptions C16_fold_restrict_ext.
+
+From NGO Require Import Syntax.Ast Model.Binding Model.Globals Model.Projection Link.ProjectionSpec.
+
+Theorem C16_good_split_interface : forall (new rest : list bodyelem) (stm : stmt) (t : list string), good_split new rest stm = Ok (Some t) -> exists (line : nat) (h : head) (b : list bodyelem) (gn gh : vset), stm = SRule line h b /\ global_vars_inside_body new = Ok gn /\ global_vars_inside_head h = Ok gh /\ (forall x : string, In x t <-> In x gn /\ ((exists r : bodyelem, In r rest /\ In x (vars_bodyelem r)) \/ In x gh)) /\ NoDup t /\ Sorted.Sorted str_le t /\ Sorted.StronglySorted str_lt t /\ ~ In "_" t.
+Proof. exact (@good_split_interface_proof). Qed.
+Print Assumptions C16_good_split_interface.
+
+Theorem C16_good_split_new_safe : forall (new rest : list bodyelem) (stm : stmt) (t : list string), good_split new rest stm = Ok (Some t) -> exists bound : vset, collect_binding_information_body new None = Ok (bound, nil).
+Proof. exact (@good_split_new_safe_proof). Qed.
+Print Assumptions C16_good_split_new_safe.
+
+Theorem C16_good_split_rest_legal : forall (new rest : list bodyelem) (stm : stmt) (t : list string), good_split new rest stm = Ok (Some t) -> exists bound : vset, collect_binding_information_body rest (Some t) = Ok (bound, nil).
+Proof. exact (@good_split_rest_legal_proof). Qed.
+Print Assumptions C16_good_split_rest_legal.
+
+Theorem C16_good_split_size : forall (new rest : list bodyelem) (stm : stmt) (t : list string), good_split new rest stm = Ok (Some t) -> exists (line : nat) (h : head) (b : list bodyelem), stm = SRule line h b /\ 1 < Datatypes.length new /\ Datatypes.length new < Datatypes.length b /\ (exists (name : string) (args : list term) (ext : bool), In (BLit (Lit NoSign (ASym (TFun name args ext)))) rest) /\ (exists gn gh : vset, global_vars_inside_body new = Ok gn /\ global_vars_inside_head h = Ok gh /\ Datatypes.length t < Datatypes.length gn /\ Datatypes.length t < Datatypes.length gh).
+Proof. exact (@good_split_size_proof). Qed.
+Print Assumptions C16_good_split_size.
+
+Theorem C16_project_rule_shape : forall (st : unames) (stm : stmt) (out : list stmt) (st' : unames), project_rule st stm = Ok (out, st') -> exists (line : nat) (h : head) (b : list bodyelem), stm = SRule line h b /\ (out = stm :: nil /\ st' = st /\ (forall n : list bodyelem, subseq n b -> good_split n (rest_of b n) stm = Ok None) \/ (exists (new rest : list bodyelem) (t : list string) (a : string), out = SRule LOC_line (HLit (aux_head a t)) new :: SRule line h (rest ++ BLit (aux_head a t) :: nil) :: nil /\ subseq new b /\ (exists pre post : list (list bodyelem), largest_subset b = pre ++ new :: post /\ (forall n : list bodyelem, In n pre -> good_split n (rest_of b n) stm = Ok None)) /\ rest = rest_of b new /\ (forall x : bodyelem, In x rest <-> In x b /\ (forall y : bodyelem, In y new -> bodyelem_eqb x y = false)) /\ good_split new rest stm = Ok (Some t) /\ new_auxpredicate st (Datatypes.length t) = Ok (a, Datatypes.length t, st') /\ ~ In (a, Datatypes.length t) (known st) /\ (forall q : pred, In q (known st') <-> q = (a, Datatypes.length t) \/ In q (known st)) /\ (exists k : nat, a = (Names.AUX_FUNC ++ string_of_nat k)%string) /\ auxcounter st < auxcounter st')).
+Proof. exact (@project_rule_shape_proof). Qed.
+Print Assumptions C16_project_rule_shape.
+
+Theorem C16_project_rule_interface : forall (st : unames) (line : nat) (h : head) (b : list bodyelem) (a : string) (t : list string) (new rest : list bodyelem) (line' : nat) (st' : unames), project_rule st (SRule line h b) = Ok (SRule line' (HLit (aux_head a t)) new :: SRule line h (rest ++ BLit (aux_head a t) :: nil) :: nil, st') -> exists gn gh : vset, global_vars_inside_body new = Ok gn /\ global_vars_inside_head h = Ok gh /\ (forall x : string, In x gn -> (exists r : bodyelem, In r rest /\ In x (vars_bodyelem r)) \/ In x gh -> In x t) /\ (forall x : string, In x t -> In x gn) /\ NoDup t /\ ~ In "_" t.
+Proof. exact (@project_rule_interface_proof). Qed.
+Print Assumptions C16_project_rule_interface.
+
+Theorem C16_execute_core_passthrough : forall (ctor_prg : list stmt) (ins : list pred) (prg out : list stmt), execute_core ctor_prg ins prg = Ok out -> filter non_rule out = filter non_rule prg /\ Datatypes.length prg <= Datatypes.length out /\ (exists (blks : list (list stmt)) (auxs : list pred) (st' : unames), exec_trace (init_names ctor_prg ins) prg blks auxs st' /\ out = List.concat blks /\ Datatypes.length out = Datatypes.length prg + Datatypes.length auxs /\ Forall2 (fun (s : stmt) (blk : list stmt) => blk = s :: nil \/ (exists (line : nat) (h : head) (b new rest : list bodyelem) (t : list string) (a : string), s = SRule line h b /\ blk = SRule LOC_line (HLit (aux_head a t)) new :: SRule line h (rest ++ BLit (aux_head a t) :: nil) :: nil)) prg blks).
+Proof. exact (@execute_core_passthrough_proof). Qed.
+Print Assumptions C16_execute_core_passthrough.
+
+Theorem C16_execute_core_fresh_aux : forall (ctor_prg : list stmt) (ins : list pred) (prg out : list stmt) (st' : unames), execute_core_state ctor_prg ins prg = Ok (out, st') -> exists (blks : list (list stmt)) (auxs : list pred), exec_trace (init_names ctor_prg ins) prg blks auxs st' /\ out = List.concat blks /\ NoDup auxs /\ (forall p : pred, In p auxs -> ~ In p (known (init_names ctor_prg ins)) /\ ~ In p ins /\ (forall s : stmt, In s ctor_prg -> ~ In p (map snd (Traverse.predicates Traverse.all_signs s))) /\ (exists k : nat, fst p = (Names.AUX_FUNC ++ string_of_nat k)%string)) /\ incl auxs (known st').
+Proof. exact (@execute_core_fresh_aux_proof). Qed.
+Print Assumptions C16_execute_core_fresh_aux.
